@@ -584,6 +584,16 @@ fn check_one(stage: &str, lit: &str, rp: &RefParse) -> Option<(String, String)> 
     }
 }
 
+/// One literal against a reference parse (stage A, then B, then the reject clause): used by the fuzz target.
+pub fn check_literal(lit: &str, rp: &RefParse) -> Option<(String, String, String, Option<String>)> {
+    for stage in ["A", "B", "reject"] {
+        if let Some((e, o)) = check_one(stage, lit, rp) {
+            return Some((stage.to_string(), e, o, sig_for(stage, lit, rp.std_ok())));
+        }
+    }
+    None
+}
+
 pub fn replay(_ctx: &Ctx, case: &Value) -> Report {
     let mut rep = Report::new(RULE);
     let stage = case["stage"].as_str().unwrap_or("A");
